@@ -67,6 +67,12 @@ add("C09", True, "E2-enum", "model_checking",
     "Trusted: changes injected as Reader::make_cache_change does; a shard stops after 6 hangs/crashes (then exhaustive=false is reported).",
     "5.9")
 
+add("C11", True, "E1-bfs", "model_checking",
+    "explicit-state BFS (history replay) over discovery-event histories on a real DPEventLoop + DiscoveryDB with real local Reader/Writer; set-and-event oracle",
+    "A real DPEventLoop (never running its loop) with its real DiscoveryDB holds a local reliable reader and writer on the topic and a distractor reader on another topic. All histories up to the depth bound over {SPDP(p), lease timeout(p), participant dispose(p), SEDP announce/re-announce(e), SEDP dispose(e)} for two remote participants with seven endpoints (same entity ids in both participants, one QoS-incompatible writer, one QoS-incompatible reader, one writer on the other topic) are executed by making, per event, the DiscoveryDB call and the notification Discovery makes. After every event: both matched sets (read from the real Reader/Writer) equal the announced compatible endpoints on the topic; the number of matched-status events equals the number of members that joined or left; each event names such a member, its current count equals the set size after that change, total counts never decrease and grow by one per join; an incompatible announcement yields an incompatible-QoS event and no match; nothing of a lost participant stays matched.",
+    "Trusted: the harness's mapping of discovery events to DB calls + notifications (discovery.rs) and the mirrored notification dispatch of event_loop(); after timeout + rediscovery un-re-announced endpoints may or may not be matched.",
+    "5.11")
+
 NOT_YET = {}
 
 def main():
